@@ -110,6 +110,9 @@ func registerIntrinsics(e *Engine) {
 	}
 	I["fmt.Sprintf"] = func(in *Interp, fn *ssa.Function, a []Value) Value {
 		format := in.concreteStr(a[0], "Sprintf format")
+		if v, ok := in.sprintfBytes(format, a[1].(SliceV)); ok {
+			return v
+		}
 		return StrV{S: in.sprintf(format, a[1].(SliceV))}
 	}
 	sprint := func(in *Interp, fn *ssa.Function, a []Value) Value {
@@ -323,6 +326,111 @@ func (in *Interp) sprintf(format string, args SliceV) string {
 		}
 	}
 	return sb.String()
+}
+
+// sprintfBytes formats byte for byte when symbolic text is involved: plain
+// %s / %v of strings and byte slices keep their (symbolic) bytes and %x of
+// strings, byte slices and byte arrays becomes two hex digits per byte.
+// ok=false (no flags understood, other operand kinds) falls back to the
+// descriptive formatter, whose output stands for "some text".
+func (in *Interp) sprintfBytes(format string, args SliceV) (StrV, bool) {
+	c := in.ctx
+	var out []*smt.Term
+	lit := func(s string) {
+		for i := 0; i < len(s); i++ {
+			out = append(out, c.BV(uint64(s[i]), 8))
+		}
+	}
+	hexDigit := func(n *smt.Term) *smt.Term { // n: 8-bit term holding 0..15
+		return c.Ite(c.Ult(n, c.BV(10, 8)), c.BVAdd(n, c.BV('0', 8)), c.BVAdd(n, c.BV('a'-10, 8)))
+	}
+	symbolic := false
+	ai := 0
+	for i := 0; i < len(format); i++ {
+		if format[i] != '%' {
+			out = append(out, c.BV(uint64(format[i]), 8))
+			continue
+		}
+		i++
+		if i >= len(format) {
+			return StrV{}, false
+		}
+		verb := format[i]
+		if verb == '%' {
+			lit("%")
+			continue
+		}
+		if ai >= args.Len {
+			return StrV{}, false
+		}
+		v := in.sliceGet(args, ai)
+		ai++
+		if iv, ok := v.(IfaceV); ok {
+			if iv.T == nil {
+				return StrV{}, false
+			}
+			v = iv.V
+		}
+		var bs []*smt.Term
+		switch x := v.(type) {
+		case StrV:
+			bs = in.strBytes(x)
+		case SliceV:
+			if x.SLen != nil || x.Nil && verb != 's' && verb != 'x' {
+				return StrV{}, false
+			}
+			if !x.Nil {
+				for k := 0; k < x.Len; k++ {
+					t, ok := in.sliceGet(x, k).(*smt.Term)
+					if !ok || t.W != 8 {
+						return StrV{}, false
+					}
+					bs = append(bs, t)
+				}
+			}
+		case ArrayV:
+			for _, e := range x {
+				t, ok := e.(*smt.Term)
+				if !ok || t.W != 8 {
+					return StrV{}, false
+				}
+				bs = append(bs, t)
+			}
+			if verb != 'x' {
+				return StrV{}, false
+			}
+		case *smt.Term:
+			if !x.IsConst() {
+				return StrV{}, false
+			}
+			lit(in.fmtValue(x, verb))
+			continue
+		default:
+			return StrV{}, false
+		}
+		for _, b := range bs {
+			if !b.IsConst() {
+				symbolic = true
+			}
+		}
+		switch verb {
+		case 's', 'v':
+			if _, isStr := v.(StrV); !isStr && verb == 'v' {
+				return StrV{}, false // %v of a byte slice prints numbers
+			}
+			out = append(out, bs...)
+		case 'x':
+			for _, b := range bs {
+				out = append(out, hexDigit(c.BVLshr(b, c.BV(4, 8))), hexDigit(c.BVAnd(b, c.BV(15, 8))))
+			}
+		default:
+			return StrV{}, false
+		}
+	}
+	if !symbolic {
+		return StrV{}, false // nothing symbolic: the descriptive formatter is exact enough
+	}
+	return in.mkStr(out), true
 }
 
 func (in *Interp) fmtValue(v Value, verb byte) string {
